@@ -511,6 +511,28 @@ def run_flows_case(spec, states, exceptions, raise_error, verbose):
     return "flows-" + ("flagged" if expected else "clean"), None
 
 
+def run_int_flows_case(order, balanced, raise_error):
+    """flows holding whole numbers in INTEGER arrays (counts): the default tolerance must work whichever flow is first"""
+    import flodym
+
+    case = dict(kind="int-flows", order=order, balanced=balanced, raise_error=raise_error)
+    procs = flodym.make_processes(PROC_NAMES[:2])
+    ds = dims_obj("t")
+    n = ds.shape[0]
+    fin = flodym.Flow(from_process=procs[PROC_NAMES[0]], to_process=procs[PROC_NAMES[1]], name="F1", dims=ds, values=np.arange(3, 3 + n, dtype=np.int64))
+    fout = flodym.Flow(from_process=procs[PROC_NAMES[1]], to_process=procs[PROC_NAMES[0]], name="F2", dims=ds, values=np.arange(3, 3 + n).astype(float) + (0.0 if balanced else 1.0))
+    flows = {"F1": fin, "F2": fout} if order == "int-first" else {"F2": fout, "F1": fin}
+    mfa = flodym.MFASystem(dims=dims_obj("tp"), parameters={}, processes=procs, flows=flows, stocks={})
+    got, info = verdict_call(mfa, None, raise_error)
+    want = expect_verdict(not balanced, raise_error)
+    if got != want:
+        return "fail", dict(case=case, tags=dict(kind="verdict", probe="int-flows"), what=f"system with an integer-valued flow ({order}), {'balanced' if balanced else 'unbalanced by 1'}: check_mass_balance(raise_error={raise_error}) -> {got} ({str(info)[:160]}), expected {want}")
+    st, info2, recs = with_capture(lambda: mfa.check_flows(raise_error=False))
+    if st == "raised" or recs:
+        return "fail", dict(case=case, tags=dict(kind="flagged-set", probe="int-flows"), what=f"system with an integer-valued flow ({order}): check_flows() -> {st} {recs} {info2}, nothing is to be flagged")
+    return "verdict-" + want, None
+
+
 def flows_specs(nproc):
     specs = []
     pairs = [(s, d) for s in range(nproc) for d in range(nproc)]
@@ -523,6 +545,16 @@ def flows_specs(nproc):
 
 
 def run_flows(u, res):
+    if u["part"] == 0 and u["nproc"] == 2:
+        for order in ("int-first", "float-first"):
+            for balanced in (True, False):
+                for raise_error in (True, False):
+                    oc, f = run_int_flows_case(order, balanced, raise_error)
+                    res["evals"] += 1
+                    res["nontrivial"] += 1
+                    res["outcomes"][oc] = res["outcomes"].get(oc, 0) + 1
+                    if f:
+                        res["fails"].append(f)
     specs = [s for i, s in enumerate(flows_specs(u["nproc"])) if i % 12 == u["part"]]
     for spec in specs:
         nf = len(spec["flows"])
@@ -575,6 +607,8 @@ def replay(case):
         oc, f = run_graph_case(case["spec"], tuple(case["probe"]))
     elif case["kind"] == "sequence":
         oc, f = run_sequence_case(case["spec"], case["stages"], case["raise_error"])
+    elif case["kind"] == "int-flows":
+        oc, f = run_int_flows_case(case["order"], case["balanced"], case["raise_error"])
     elif case["kind"] == "straddle":
         oc, f = run_straddle_case(case["spec"], case["which"], case["pos"], case["factor"], case["raise_error"], case.get("zero_tol", False))
     else:
